@@ -853,6 +853,33 @@ pub fn scenarios(prop: &str, tier: &str) -> Vec<Arc<dyn Scenario>> {
             a.pulldown = vec![];
             a.major = vec![1];
             a.flush_sealed = false;
+            {
+                // several keys per data block (the ingested table and the older tables it shadows are
+                // each a single block): scans from both ends meet inside one block
+                // (five keys: the merge and the MVCC filter read a few items ahead of what has been
+                // returned, so the cursors only meet inside a block that holds several entries)
+                let keys5: Vec<Vec<u8>> = b"abcde".iter().map(|b| vec![*b]).collect();
+                let mut c = TreeCfg::small(keys5);
+                c.block_size = 4096;
+                let mut a4 = a.clone();
+                a4.put = false;
+                a4.del = false;
+                a4.ingests = vec![
+                    (0..5u8).map(|k| (k, IKind::Val)).collect(),
+                    (0..5u8).map(|k| (k, if k == 0 { IKind::Val } else { IKind::Tomb })).collect(),
+                    (0..5u8).map(|k| (k, if k == 0 { IKind::Tomb } else { IKind::Val })).collect(),
+                ];
+                a4.extra = vec![Op::MultiPut { ks: vec![0, 1, 2, 3, 4] }, Op::MultiDel { ks: vec![1, 2, 3, 4] }];
+                let bd = if quick { bs(3, 1, 1, 0, 0) } else { bs(4, 2, 1, 1, 0) };
+                v.push(std("C14-block4096", c, a4, bd, vec![vec![]], OracleKind::C14));
+                // key-value separated tree: its ingestion has its own finish path
+                let mut ab = a.clone();
+                ab.ingests.push(vec![(0, IKind::BigVal)]);
+                if quick {
+                    ab.ingests = vec![vec![(0, IKind::Val)], vec![(0, IKind::BigVal), (1, IKind::Tomb)]];
+                    v.push(std("C14-blob-quick", TreeCfg::small(keys_ab()).with_blob(16), ab, bs(2, 1, 0, 0, 0), vec![vec![]], OracleKind::C14));
+                }
+            }
             if quick {
                 v.push(std(
                     "C14-std",
